@@ -630,7 +630,18 @@ func (s *scen) afterCoordEvents() {
 			if prev, ok := w.attempt[h]; ok && c < prev {
 				sig := "C13/backoff/attempt-count-decreased"
 				if e.ev == "result" {
-					sig = "C13/backoff/count-reset-by-catchup-result"
+					// which kind of job delivered this result?
+					typ := ""
+					for _, p := range w.events[:w.monIdx] {
+						if p.ev == "spawn" && p.kv["id"] == e.kv["id"] {
+							typ, _ = p.kv["type"].(string)
+						}
+					}
+					if typ == "catchup" || typ == "recent" {
+						sig = "C13/backoff/count-reset-by-catchup-result"
+					} else {
+						sig = "C13/backoff/count-decreased-by-" + typ + "-result"
+					}
 				}
 				s.rep.Violate(sig, fmt.Sprintf("attempt count of height %d went from %d to %d at coordinator event %q", h, prev, c, e.ev), s.replay())
 			}
